@@ -110,6 +110,32 @@ CHECKS = {
              "scenarios; thorough 96 seeds x 216 scenarios). Trusted base: Miri's model of std Mutex/Condvar; hook H4 only "
              "adds notify_all/count accessors.",
         design="4/C19"),
+    "C07": dict(
+        category="exploration",
+        technique="runtime monitoring: before/after inventory equality + LD_PRELOAD syscall log with zero mutating calls on the tree",
+        text="`fclones group` runs in every transform I/O mode (stdin->stdout, $IN, $IN+$OUT, --in-place, --in-place --no-copy "
+             "and --no-copy with helper programs that only read, ignore or fail), with --cache, -o, all formats and pinned disk "
+             "kinds, and every dedupe operation runs with --dry-run and random options, on generated trees (hard links, "
+             "symlinks, hostile names, ext4 and tmpfs). Oracle 1: the full inventory (paths, bytes, link structure, inode, mode, "
+             "mtime_ns) is identical before and after, $TMPDIR is empty afterwards, the cache dir holds only fclones/. "
+             "Oracle 2: the interposer log (inherited by the transform children) contains no successful mutating call whose "
+             "mutated path lies under the scanned tree (catches write-then-restore and delete-then-recreate).",
+        note=COMMON_NOTE + "The only exception the property allows (a transform program that itself writes to $IN under "
+             "--no-copy) is never generated. atime and directory mtimes are not compared.",
+        design="4/C07"),
+    "C11": dict(
+        category="exploration",
+        technique="runtime monitoring: dry-run script decoded and executed by bash vs the syscall log and final tree of the real run",
+        text="For generated trees with shell-hostile and non-UTF-8 names, all five operations and random options: the "
+             "operations bash decodes from the --dry-run script must equal (as a multiset and in report-group order) the "
+             "operations reconstructed from the LD_PRELOAD log of the real run on the same tree and report; the two summaries "
+             "(N files, bytes) must be equal; for remove / link / link --soft the tree restored from a cp -a backup and "
+             "processed by `bash script` must equal the tree left by the real run (paths, types, bytes, link targets, hard-link "
+             "partition, no temp leftovers); the script must be identical modulo temp names under RAYON_NUM_THREADS 1/2/16 "
+             "with hook jitter at the script generation.",
+        note=COMMON_NOTE + "bash 5 is the decoder/executor. `move` and `dedupe` scripts are compared with the real run but not executed "
+             "(the property only requires execution equivalence for remove and link). FICLONE is emulated for `dedupe`.",
+        design="4/C11"),
 }
 
 NOT_YET = {}
